@@ -357,6 +357,7 @@ func checkC03(c *core.Ctx) {
 		routs = append(routs, runBatch(c, rbin, ws, fmt.Sprintf("race%d", s), lines, 6, solo, ""))
 	}
 	validateBatches(c, routs, c03Invariants, "C03-race")
+	poolScheduleReplay(c)
 	c.Cover("sessions", len(outs))
 	c.Cover("race_sessions", len(routs))
 	if len(outs) > 0 {
@@ -484,3 +485,94 @@ func runBatchDeadline(c *core.Ctx, bin string, ws *workspace, name string, lines
 }
 
 var batchDeadline = 10 * time.Minute
+
+// needs of the runs of MC_PoolSched (the constants the schedules are generated with; Trace_Pool's P_ProgramOrder binds
+// this copy to the specification's NeedsP)
+var poolNeeds = [][]string{{"cfg", "soil", "crop", "wa"}, {"cfg", "soil", "wb"}, {"cfg", "crop", "wa", "pa"}, {"soil", "cfg", "wb"}, {"crop", "cfg"}}
+
+var reSched = regexp.MustCompile(`(?m)^<<"SCHED", "(.*)">>$`)
+
+// poolScheduleReplay: specification -> code. Behaviours of MC_PoolSched (Batch.tla with five runs) are generated by
+// `tlc -simulate`; every behaviour's schedule of pool accesses is enforced on real goroutines over the real FilePool of
+// a fresh session through the gate hook (race-detector build), strictly ordered and with the model's contention sets
+// released together; Trace_Pool.tla explains every served access by the pool actions of Batch.tla.
+func poolScheduleReplay(c *core.Ctx) {
+	if c.Replay != "" {
+		return
+	}
+	nb := c.Pick(40, 400)
+	sim := c.TLC(core.TLCOpts{Module: "MC_PoolSched", Cfg: "PoolSched_simulate.cfg", Kind: "simulate", Workers: 1, Timeout: 10 * time.Minute,
+		Extra: []string{"-simulate", fmt.Sprintf("num=%d", nb), "-depth", "300", "-seed", fmt.Sprint(c.Seed)}})
+	if sim.Violated != "" || sim.TimedOut {
+		c.Machineryf("schedule generation (MC_PoolSched -simulate): exit=%d %s\n%s", sim.Exit, sim.Violated, sim.Tail(10))
+		return
+	}
+	var scheds []json.RawMessage
+	for _, m := range reSched.FindAllStringSubmatch(sim.Output, -1) {
+		js := strings.ReplaceAll(m[1], `\"`, `"`)
+		if json.Valid([]byte(js)) {
+			scheds = append(scheds, json.RawMessage(js))
+		}
+	}
+	if len(scheds) < nb/2 {
+		c.Machineryf("schedule generation produced %d of %d schedules\n%s", len(scheds), nb, sim.Tail(10))
+		return
+	}
+	dir := c.Sub("poolsched")
+	files := filepath.Join(dir, "files")
+	os.MkdirAll(files, 0755)
+	seen := map[string]bool{}
+	for _, ns := range poolNeeds {
+		for _, f := range ns {
+			if !seen[f] {
+				seen[f] = true
+				os.WriteFile(filepath.Join(files, f), []byte(strings.Repeat("content of "+f+"\n", 50+len(seen)*37)), 0644)
+			}
+		}
+	}
+	sb, _ := json.Marshal(scheds)
+	os.WriteFile(filepath.Join(dir, "schedules.json"), sb, 0644)
+	nbj, _ := json.Marshal(poolNeeds)
+	os.WriteFile(filepath.Join(dir, "needs.json"), nbj, 0644)
+	rworker, err := c.BuildWorker(true)
+	if err != nil {
+		c.Machineryf("%v", err)
+		return
+	}
+	trace := filepath.Join(dir, "trace.ndjson")
+	out, code, to := core.Run(dir, []string{"GORACE=halt_on_error=0"}, 10*time.Minute, nil, rworker, "poolsched", "-schedules", filepath.Join(dir, "schedules.json"), "-needs", filepath.Join(dir, "needs.json"),
+		"-dir", files, "-out", trace, "-contend-rounds", fmt.Sprint(c.Pick(3, 6)))
+	races := strings.Count(out, "WARNING: DATA RACE")
+	if to || (code != 0 && races == 0) {
+		c.Machineryf("pool schedule replay failed (%d): %s", code, out)
+		return
+	}
+	if f, err := os.OpenFile(trace, os.O_APPEND|os.O_WRONLY, 0644); err == nil {
+		b, _ := json.Marshal(map[string]interface{}{"ev": "race", "count": races})
+		f.Write(append(b, '\n'))
+		f.Close()
+	}
+	n := core.CountLines(trace)
+	c.CoverAdd("pool_schedules_from_tlc", len(scheds))
+	c.CoverAdd("pool_replay_events", n)
+	c.AddSample(map[string]interface{}{"pool_schedule": scheds[0]})
+	r := c.TLC(core.TLCOpts{Module: "Trace_Pool", Cfg: "Trace_Pool.cfg", Kind: "trace", Workers: 1, Timeout: 20 * time.Minute, Heap: "6g", Files: map[string]string{"trace.ndjson": trace}})
+	c.Evals += len(scheds)
+	if r.IsViolation() {
+		l, _ := r.AliasInt("l")
+		line := core.LineOf(trace, l-1)
+		if strings.HasPrefix(r.Violated, "M_") {
+			c.Machineryf("pool schedule replay: the gate did not enforce the schedule (%s) at %s", r.Violated, line)
+			return
+		}
+		rd := saveReplay(c, map[string]string{"event.json": line + "\n", "tlc.out": r.Tail(40), "stderr.txt": out, "schedules.json": string(sb)})
+		if len(line) > 300 {
+			line = line[:300]
+		}
+		c.Violate(fmt.Sprintf("%s violated in the replay of TLC-generated pool schedules on the real FilePool at event %d: %s", r.Violated, l-1, strings.TrimSpace(line)), rd)
+	} else if !r.OK() {
+		c.Machineryf("pool replay trace validation failed: exit=%d post=%v\n%s", r.Exit, r.PostFail, r.Tail(20))
+	} else {
+		c.TracesOK += len(scheds)
+	}
+}
